@@ -706,6 +706,21 @@ func (e *Env) callExpr(x ECall) Term {
 		}
 		gt := e.lookupType(ts.V)
 		return Term{S: app("=", app("Iface_tag", t.S), fmt.Sprint(fv.tagOf(gt))), Sort: SBool}
+	case "poolowned":
+		// poolowned(b): the storage of b belongs to a sync.Pool declared with //@ pool
+		argn(1)
+		t := e.argBytes(x.Args[0])
+		return Term{S: app("poolowned", fv.baseOf(t)), Sort: SBool}
+	case "cast":
+		// cast(p, "*T"): the same pointer viewed as *T (unsafe.Pointer conversions keep the identity)
+		argn(2)
+		t := e.eval(x.Args[0])
+		ts, ok := x.Args[1].(EStr)
+		if !ok || t.Sort.Kind != KRef {
+			e.fail("cast(pointer, \"*T\")")
+		}
+		t.Go = e.lookupType(ts.V)
+		return t
 	case "implements":
 		// implements(x, "pkg.Iface"): the dynamic type of interface value x implements Iface
 		argn(2)
@@ -948,6 +963,13 @@ func (e *Env) specCall(sf *SpecFunc, args []Term) Term {
 func (e *Env) lookupType(name string) types.Type {
 	ptr := strings.HasPrefix(name, "*")
 	name = strings.TrimPrefix(name, "*")
+	if name == "[]byte" {
+		var t types.Type = types.NewSlice(types.Typ[types.Byte])
+		if ptr {
+			t = types.NewPointer(t)
+		}
+		return t
+	}
 	pk := e.pkg()
 	var obj types.Object
 	if i := strings.LastIndex(name, "."); i >= 0 {
